@@ -1,3 +1,10 @@
 // Package hdf5 is a pure-Go stand-in for gonum.org/v1/hdf5 (libhdf5 is not
-// installed in the verification sandbox).  See DESIGN.md section 5.
+// installed in the verification sandbox).  See README.md in this directory for
+// the semantics that are modelled, and /verif/DESIGN.md section 5.
+//
+// The package implements the identifiers of gonum.org/v1/hdf5 that
+// github.com/flowmatters/openwater-core uses, with the signatures of the real
+// binding (version v0.0.0-20210714002203-8c5d23bc6946), plus a few Verif*
+// entry points that exist only in the fake (call/overlap counters, helpers to
+// build files that the repository itself cannot create).
 package hdf5
